@@ -1394,7 +1394,6 @@ func flipOp(op token.Token) token.Token {
 	return op
 }
 
-
 // tableFieldConsts: v is a load of field f of table[i] for a read-only package-level array or
 // slice `table` of the module: the integer values f takes over all elements.
 func tableFieldConsts(c *Ctx, v ssa.Value) ([]int64, bool) {
@@ -1459,7 +1458,6 @@ func tableFieldConsts(c *Ctx, v ssa.Value) ([]int64, bool) {
 	}
 	return out, true
 }
-
 
 // appendsConstIn: append(s, x) with one element whose value is a constant at every place it
 // can come from in root's view (a helper's parameter bound to constants at its call sites).
